@@ -486,6 +486,76 @@ func runC17(r *Run) {
 			"if replace writes into the working document instead of a fresh one, other sections survive a replace", fmt.Sprint(keys), fmt.Sprintf("fresh=%v stores=%v", fresh, keys))
 	}
 
+	// --- roundtrip.members: document → patches converts every member
+	if f := r.fn(P, pkgPatch, "PatchesFromDocument"); f != nil {
+		pf := r.E.Facts(f, core.Ctx{})
+		head := loopHead(f)
+		rule := "E6/E8: every iteration over the document's (sorted) members either fails or appends an entry for that member (a dedicated patch or a JSON-patch add)"
+		why := "a member that is skipped is missing from the patches, so applying them to an empty document does not reproduce the document"
+		if head == nil {
+			r.R.Unk(P+".roundtrip.members", rule, core.FuncName(f), r.where(f), why, "no loop over the members")
+		} else {
+			paths := loopIterationPaths(pf, head, 4000)
+			var bad []string
+			n := 0
+			ei := f.Signature.Results().Len() - 1
+			for _, ip := range paths {
+				if ip.Ret != nil {
+					if !isNilConstV(core.RetOp(ip.Ret, ei)) {
+						continue // failing iteration
+					}
+					continue // loop exit
+				}
+				// infeasible: `x == nil` taken although x is, on this path, the result of a constructor that returns a fresh value
+				infeasible := false
+				for i := 0; i+1 < len(ip.Blocks); i++ {
+					for _, fc := range pf.EdgeFacts(ip.Blocks[i], ip.Blocks[i+1]) {
+						if fc.Kind == "cmp" && fc.Op == "==" && fc.B.Name == "nil" {
+							if v, ok := fc.A.Val.(ssa.Value); ok {
+								rv := resolveOnPath(v, ip.Blocks)
+								if ex, ok := rv.(*ssa.Extract); ok {
+									rv = ex.Tuple
+								}
+								if c, ok := rv.(*ssa.Call); ok && r.nonNilResult(c.Common().StaticCallee()) {
+									infeasible = true
+								}
+							}
+						}
+					}
+				}
+				if infeasible {
+					continue
+				}
+				n++
+				apps := 0
+				for _, b := range ip.Blocks[:len(ip.Blocks)-1] {
+					for _, ins := range b.Instrs {
+						if c, ok := ins.(*ssa.Call); ok && isBuiltin(c, "append") {
+							apps++
+						}
+					}
+				}
+				if apps == 0 {
+					bad = append(bad, "an iteration completes without appending anything for the member")
+				}
+			}
+			r.R.Count("E8 member-conversion iteration paths", n)
+			r.R.Check(len(bad) == 0 && n >= 4, P+".roundtrip.members", rule, core.FuncName(f), r.where(f), why, fmt.Sprintf("%d feasible iteration paths, each appends", n), strings.Join(dedupe(bad), "; ")+fmt.Sprintf(" (%d paths)", n))
+		}
+		// iteration is over sorted keys of the parsed document
+		okSorted := false
+		for _, b := range f.Blocks {
+			for _, ins := range b.Instrs {
+				if ia, ok := ins.(*ssa.IndexAddr); ok {
+					if core.MatchTerm("sortedKeys(document.FromBytes(_))", pf.TB.Of(ia.X), core.Bind{}) {
+						okSorted = true
+					}
+				}
+			}
+		}
+		r.R.Check(okSorted, P+".roundtrip.sorted", "E14: members are converted in sorted key order", core.FuncName(f), r.where(f), "map order would make the produced patch list non-deterministic", "range over sortedKeys(parsed)", "members are not iterated through sortedKeys")
+	}
+
 	// --- set semantics guards
 	for _, s := range []struct{ fn, section, kind string }{
 		{"applyAddPublicKeys", "publicKey", "add"}, {"applyAddServiceEndpoints", "service", "add"}, {"applyAddAlsoKnownAs", "alsoKnownAs", "add"},
